@@ -213,9 +213,17 @@ def with_scratch(fn: Callable[..., Any]) -> Callable[..., Any]:
     return wrapper
 
 
-def cleanup_scratch() -> None:
+def cleanup_scratch(max_age_s: float = 3600.0) -> None:
+    """remove *stale* scratch directories only (other checks may be running concurrently)"""
+    import time
+
+    now = time.time()
     for p in scratch_root().glob(SCRATCH_PREFIX + "*"):
-        shutil.rmtree(p, ignore_errors=True)
+        try:
+            if now - p.stat().st_mtime > max_age_s:
+                shutil.rmtree(p, ignore_errors=True)
+        except OSError:
+            pass
 
 
 # --------------------------------------------------------------------------------------------
